@@ -3,3 +3,4 @@ INVARIANT Laws
 CHECK_DEADLOCK FALSE
 CONSTANTS LangCmpExt = TRUE
   SameLitExt = TRUE
+  IllDtExt = TRUE
